@@ -33,7 +33,71 @@ def blob(e):
     return ("blob", e)
 
 
+def converter_paths_rule(ck, P):
+    """E-COMP-PIPE|converter-paths: the converting reader re-encodes on BOTH of its paths whenever a recompressor is configured: in
+    get_tile_data and get_bbox_tile_stream the call of the recompressor (process_blob / process_stream) sits under no other condition than
+    `if let Some(r) = &self.tile_recompressor` (and, for the lookup, the tile being present) — in particular not under the flip / swap flags."""
+    impl = [i for i in P.impls_of("::TilesReaderTrait") if i.get("self_adt", "").endswith("::TilesConvertReader")]
+    if not ck.anchor("E-COMP-PIPE", "impl TilesReaderTrait for TilesConvertReader", impl, 1):
+        return
+    for mname, callee in (("get_tile_data", "process_blob"), ("get_bbox_tile_stream", "process_stream")):
+        m = P.impl_method(impl[0], mname, inline=False)
+        if m is None:
+            ck.violation("E-COMP-PIPE", "anchor-missing|TilesConvertReader::" + mname, "method not found")
+            continue
+        blk = ir.fn_block(m)
+        calls = [(y, ps) for y, ps, _ in ir.walk(blk) if y.get("k") == "mcall" and (ir.callee(y) or "").endswith("TileConverter::" + callee)]
+        ok, why = len(calls) == 1, "%d recompressor calls" % len(calls)
+        if ok:
+            y, ps = calls[0]
+            conds = []
+            for i_, p_ in enumerate(ps):
+                if p_.get("k") == "if":
+                    nxt = ps[i_ + 1] if i_ + 1 < len(ps) else y
+                    in_then = p_.get("then") is nxt or ir.contains(p_["then"], lambda z: z is y)
+                    c = ir.unparen(p_["c"])
+                    is_opt = c.get("k") == "letx" and (c["pat"].get("q") or "").endswith("Option::Some::{Ctor#0}") and in_then and \
+                        (ir.place_str(c["init"]).endswith("tile_recompressor") or "Blob" in (ir.strip(c["init"]).get("t") or "") or ir.local_hid(c["init"]) is not None)
+                    if not is_opt:
+                        conds.append("%s-branch of `if %s`" % ("then" if in_then else "else", (p_["c"].get("src") or ir.place_str(p_["c"]) or "…")[:50]))
+                elif p_.get("k") in ("match", "while", "for", "loop"):
+                    conds.append(p_["k"])
+            ok = not conds
+            why = "it is reached only in the " + ", ".join(conds)
+        ck.check(ok, "E-COMP-PIPE", "TilesConvertReader|%s|recompress-unconditional" % mname, "%s re-encodes whenever a recompressor is configured (no other condition)" % mname,
+                 "%s applies the recompressor conditionally (%s): tiles keep their source encoding on the other path while the reader advertises the target encoding" % (mname, why), ir.loc(m))
+
+
+def override_order_rule(ck, P):
+    """E-COMP-PIPE|override-before-wrap: --override-input-compression corrects what a READER reports about its stored bytes.  The converting
+    wrapper copies the reported compression when it is built (its own parameters and its recompressor start from it) and its
+    override_compression only forwards to the wrapped reader, so in the tools the override must be applied to the reader BEFORE it is handed to
+    TilesConvertReader::new_from_reader / convert_tiles_container — an override after wrapping leaves the wrapper advertising the old value."""
+    from . import mvt
+    n_over, bad = 0, []
+    for b in P.bodies:
+        if not b["q"].startswith("versatiles::tools::") or "::tests::" in b["q"]:
+            continue
+        order = list(mvt._eval_order(b["body"]))
+        pos = {id(y): i for i, y in enumerate(order)}
+        overs = [y for y in order if y.get("k") == "mcall" and (y.get("q") or "").endswith("TilesReaderTrait::override_compression")]
+        wraps = [y for y in order if y.get("k") == "call" and (y.get("q") or "").endswith(("TilesConvertReader::new_from_reader", "::convert_tiles_container"))]
+        for o in overs:
+            n_over += 1
+            rh = ir.local_hid(o["recv"])
+            for w in wraps:
+                same = any(z.get("k") == "path" and z.get("r") == "local" and z.get("hid") == rh for z in ir.walk_nodes(w))
+                # a wrap that feeds the overridden local, evaluated before the override, inside the same loop round / function
+                if same and pos[id(w)] < pos[id(o)]:
+                    bad.append("%s: override_compression at %s follows the wrapping at %s" % (b["q"].rsplit("::", 2)[-2], ir.loc(o), ir.loc(w)))
+    ck.anchor("E-COMP-PIPE", "override_compression calls in the tools", n_over, 2)
+    ck.check(not bad, "E-COMP-PIPE", "tools|override-before-wrap", "the input-compression override reaches the reader before it is wrapped by the converter (%d call(s))" % n_over,
+             "the compression override is applied after the reader was wrapped: %s — the wrapper keeps advertising (and recompressing from) the old compression" % bad[:2])
+
+
 def rules(ck, P):
+    converter_paths_rule(ck, P)
+    override_order_rule(ck, P)
     # the pmtiles target keeps its (compressed) metadata and root directory apart: see wire.pm_layout_rules
     from . import wire
     wire.pm_layout_rules(ck, P)
